@@ -414,7 +414,10 @@ class Hooks:
         if name == 'CellValue':
             return Fn(lambda t, v: CellStub(v))
         if name in ('logger', 'logging'):
-            return Fn(lambda *a, **k: None)
+            class Null(AbsObj):
+                def getattr_(self, a, interp):
+                    return Fn(lambda *a, **k: None)
+            return Null()
         m = self.repo.modules.get(modname)
         if m is not None:
             f = m.functions.get(name)
